@@ -1901,7 +1901,7 @@ def r9_enumerate(toks, counts):
 
 R26_SOURCES = ('iter', 'into_iter', 'keys', 'values')
 R26_ADAPTERS = ('filter', 'map', 'filter_map', 'copied', 'cloned')
-R26_TERMINALS = ('collect', 'count', 'for_each')
+R26_TERMINALS = ('collect', 'count', 'for_each', 'all', 'any')
 
 
 def _flat(toks):
@@ -1996,7 +1996,7 @@ def _r26_parse_stages(toks, j):
         return None, j
     parsed = []
     for (name, arg, tf) in stages:
-        if name in ('filter', 'map', 'filter_map', 'for_each'):
+        if name in ('filter', 'map', 'filter_map', 'for_each', 'all', 'any'):
             c = _parse_closure(arg)
             if c is None:
                 return None, j
@@ -2037,6 +2037,8 @@ def _r26_emit(parsed, target, source_text, ind0, P):
     term = parsed[-1][0]
     if term == 'count':
         lines.append(I1 + 'let mut %sacc: usize = 0;' % P)
+    elif term in ('all', 'any'):
+        lines.append(I1 + 'let mut %sacc = %s;' % (P, 'true' if term == 'all' else 'false'))
     elif term == 'collect':
         lines.append(I1 + 'let mut %sacc = %s::new();' % (P, target))
     lines.append(I1 + 'for %sx in %s {' % (P, source_text))
@@ -2078,6 +2080,16 @@ def _r26_emit(parsed, target, source_text, ind0, P):
             cur = nxt
     if term == 'count':
         lines.append(depth_ind + '%sacc += 1;' % P)
+    elif term in ('all', 'any'):
+        # lazy `all`/`any` stop calling the closure once the answer is known: the guard keeps the number of calls the same
+        (name, pat, body, tf) = parsed[-1]
+        lines.append(depth_ind + 'if %s%sacc {' % ('' if term == 'all' else '!', P))
+        lines.append(depth_ind + '    let %s = %s;' % (pat, cur))
+        lines.append(depth_ind + '    let %st = %s;' % (P, _body_text(body, depth_ind + '    ')))
+        lines.append(depth_ind + '    if %s%st {' % ('!' if term == 'all' else '', P))
+        lines.append(depth_ind + '        %sacc = %s;' % (P, 'false' if term == 'all' else 'true'))
+        lines.append(depth_ind + '    }')
+        lines.append(depth_ind + '}')
     elif term == 'for_each':
         (name, pat, body, tf) = parsed[-1]
         lines.append(depth_ind + 'let %s = %s;' % (pat, cur))
@@ -2318,11 +2330,20 @@ R29_FORMS = {
 }
 
 
-def r29_inline_combinators(toks, counts):
+R29_OPTIONAL = {
+    # opt-in (region option R29map): `.map` is also an iterator / Result method; on those the rewrite does not type-check
+    'map': ('Some(%s)', 'Some(%s)', 'None => None'),
+}
+
+
+def r29_inline_combinators(toks, counts, extra=()):
     """`E.is_some_and(|P| B)` -> `match E { Some(P) => B, None => false }`; `E.is_ok_and(|P| B)` -> `match E { Ok(P) => B, Err(_) => false }`;
     `E.and_then(|P| B)` (Option) -> `match E { Some(P) => B, None => None }`: the definitions of the combinators, so that no closure
     (which would need a hand-written signature to carry a contract) is left.  E is the whole postfix expression before the call; the
     closure parameter and body are the source's own tokens.  Closures containing `return`/`?` or typed parameters are left alone."""
+    FORMS = dict(R29_FORMS)
+    for e in extra:
+        FORMS[e] = R29_OPTIONAL[e]
     changed = True
     while changed:
         changed = False
@@ -2333,20 +2354,20 @@ def r29_inline_combinators(toks, counts):
             t = toks[i]
             if is_p(t, '.') and not changed:
                 nx = next_sig(toks, i + 1)
-                if nx < n and toks[nx][0] == 'id' and toks[nx][1] in R29_FORMS:
+                if nx < n and toks[nx][0] == 'id' and toks[nx][1] in FORMS:
                     op = next_sig(toks, nx + 1)
                     if op < n and is_p(toks[op], '('):
                         cl = match_close(toks, op)
                         c = _parse_closure(toks[op + 1:cl])
                         # innermost first: the closure body must not itself contain a combinator call still to be rewritten
-                        if c is not None and not any(x[0] == 'id' and x[1] in R29_FORMS for x in c[1]):
+                        if c is not None and not any(x[0] == 'id' and x[1] in FORMS for x in c[1]):
                             try:
                                 start = _postfix_start(out, len(out) - 1)
                             except ExtractError:
                                 start = None
                             if start is not None:
                                 pat, body = c
-                                form = R29_FORMS[toks[nx][1]]
+                                form = FORMS[toks[nx][1]]
                                 recv = _flat(out[start:])
                                 ind0 = _indent_of_line_containing(out, start)
                                 I1 = ind0 + '    '
@@ -2427,7 +2448,7 @@ def extract_region(src_text, path, opts=None):
             if 'R26' not in opts.get('skip', ()):
                 item = r26_iter_chains(item, counts)
             if 'R29' not in opts.get('skip', ()):
-                item = r29_inline_combinators(item, counts)
+                item = r29_inline_combinators(item, counts, extra=('map',) if 'R29map' in opts.get('rules', ()) else ())
             if 'R28' in opts.get('rules', ()):
                 item = r28_closure_signatures(item, counts, opts.get('r28_sigs', []))
             item = r21_map_err_anyhow(item, counts)
